@@ -19,7 +19,10 @@ RULE = (
     "Oracle: exact rational arithmetic (fractions.Fraction) on the closed polygon - the crossings of x = a, the row must be (a, max crossing "
     "ordinate), abscissae without crossing are omitted, row order = step order, default steps = linspace(min+eps, max-eps), swap_axis == "
     "exchanging the coordinate columns. Part intersection: pairs of random polylines (2-40 segments) in general position; the returned points must "
-    "equal the exact crossing set as multisets and lie on both polylines. Non-trivial: an abscissa with >= 4 crossings or swap_axis=True."
+    "equal the exact crossing set as multisets and lie on both polylines. Parts design_large / intersection_large: the same oracles on polygons, IFORM "
+    "contours (n_points 257-1000) and polylines of 100-1500 vertices (incl. 255..258, 511..513, 1024, 1025), abscissae chosen inside individual edges, "
+    "among them the edges around every multiple of 64; a float pre-filter selects the straddling edges / overlapping bounding boxes and only those go "
+    "through Fractions. Non-trivial: an abscissa with >= 4 crossings or swap_axis=True."
 )
 ASSUMPTIONS = [
     "general position by construction: requested abscissae never equal a vertex abscissa (those that do are skipped), polylines share no vertices and have no collinear overlaps",
